@@ -1850,6 +1850,7 @@ func TestC33(t *testing.T) {
 			rg := Sub("C33reneg-flavour", k)
 			cs.seed = k
 			cs.warm13 = cs.can13 && rg.Intn(3) == 0 && !strings.Contains(cs.tg.Name, "+fake-psk") // (a fake PSK next to a cached real session: contradictory use)
+			cs.certless = !cs.warm13 && (cs.kind.name == "tls12" || cs.kind.name == "tls12-rsa-leaf" || cs.kind.name == "tls11") && rg.Intn(4) == 0 && cs.tg.ID.Client != tls.HelloGolang.Client && !strings.Contains(cs.tg.Name, "+fake-psk")
 			cs.reneg = []int{-1, -1, -1, int(tls.RenegotiateNever), int(tls.RenegotiateOnceAsClient), int(tls.RenegotiateFreelyAsClient)}[rg.Intn(6)]
 			cs.preRequest = rg.Intn(3) == 0
 			cs.requests = []int{1, 1, 1, 2, 3}[rg.Intn(5)]
@@ -1861,6 +1862,12 @@ func TestC33(t *testing.T) {
 			r.Count("post_handshake_cases", 1)
 			if res.phase == "warmup-failed" {
 				r.Count("post_handshake_warmup_failed", 1)
+			}
+			if cs.certless && res.resumed {
+				r.Count("post_handshake_cases_on_certless_resumed_connections", 1)
+				if res.gotHello2 {
+					r.Count("renegotiation_hellos_from_certless_resumed_connections", 1)
+				}
 			}
 			if res.gotHello2 {
 				r.Count("renegotiation_hellos_received", 1)
